@@ -139,8 +139,8 @@ def encode_template(analysis: Analysis):
     templ = None
     none_returns = 0
     for r in rets:
-        if r.value is None or (isinstance(r.value, ast.Constant) and r.value.value is None):
-            none_returns += 1
+        if r.value is None or isinstance(r.value, ast.Constant):
+            none_returns += 1  # constant returns are judged by C02-R2
             continue
         t = template(r.value, selfname, env)
         if t is None:
